@@ -454,6 +454,101 @@ def reach_asymmetric(from_a: bool, n_warm: int, which_down: int):
     check(bool(ok) == up, lambda: f"ping {'a->b' if from_a else 'b->a'} with link {down} down, {nw} warm-up rounds: result {ok}, every device on both (asymmetric) paths {'is' if up else 'is not'} up")
 
 
+def _two_router_lan():
+    """One LAN (192.168.1.0/24, a switch) with TWO routers on it: r1 is the hosts' default gateway and routes the remote
+    subnet 192.168.2.0/24 via r2 (192.168.1.254), which is attached to it directly. Replies from the remote subnet come
+    back from r2 straight onto the LAN."""
+    from primaite.simulator.network.hardware.nodes.network.router import ACLAction
+
+    quiet()
+    sim = new_sim()
+    net = sim.network
+    sw = mk_node("switch", "sw1", start_up_duration=0, num_ports=4)
+    sw.power_on()
+    net.add_node(sw)
+    a = mk_host("computer", "pc_a", "192.168.1.2", gw="192.168.1.1", start_up_duration=0)
+    b = mk_host("server", "pc_b", "192.168.2.2", gw="192.168.2.1", start_up_duration=0)
+    r1 = mk_node("router", "r1", start_up_duration=0, num_ports=2)
+    r2 = mk_node("router", "r2", start_up_duration=0, num_ports=2)
+    for n in (a, b, r1, r2):
+        n.power_on()
+        net.add_node(n)
+    r1.configure_port(port=1, ip_address="192.168.1.1", subnet_mask="255.255.255.0")
+    r2.configure_port(port=1, ip_address="192.168.1.254", subnet_mask="255.255.255.0")
+    r2.configure_port(port=2, ip_address="192.168.2.1", subnet_mask="255.255.255.0")
+    net.connect(sw.network_interface[1], a.network_interface[1])
+    net.connect(sw.network_interface[2], r1.network_interface[1])
+    net.connect(sw.network_interface[3], r2.network_interface[1])
+    net.connect(r2.network_interface[2], b.network_interface[1])
+    r1.enable_port(1)
+    r2.enable_port(1)
+    r2.enable_port(2)
+    r1.acl.add_rule(action=ACLAction.PERMIT, position=1)
+    r2.acl.add_rule(action=ACLAction.PERMIT, position=1)
+    r1.route_table.add_route(address="192.168.2.0", subnet_mask="255.255.255.0", next_hop_ip_address="192.168.1.254")
+    return sim, a, b, r1, r2, sw
+
+
+def gateway_lan(first_from_b: bool, n_warm: int, gw_blocks: int, proto: int):
+    """Hosts reach other subnets through their default gateway in EVERY ARP-cache state: on a LAN with two routers, every
+    unicast IP frame pc_a emits for an off-subnet address is addressed (MAC) to its configured gateway r1 - also after
+    it has received routed frames from the remote host that arrived via the other router - so an exchange the gateway
+    does not forward (ACL, gateway port down) does not complete, and one that every device permits does."""
+    assume(all_of(rng(n_warm, 0, 2), rng(gw_blocks, 0, 2), rng(proto, 0, 1)))
+    nw = pick_int(n_warm, 0, 2)
+    blk = pick(["none", "acl_deny", "gw_port_down"], gw_blocks)
+    proto = pick_int(proto, 0, 1)
+    first_from_b = True if first_from_b else False
+    with concrete():
+        from primaite.simulator.network.hardware.nodes.network.router import ACLAction
+
+        sim, a, b, r1, r2, sw = _two_router_lan()
+        gw_mac = r1.network_interface[1].mac_address
+        open_port = sorted(p for p in b.software_manager.get_open_ports() if p > 0)[0]  # a port pc_b listens on
+        sent = []
+        orig_send = a.network_interface[1].send_frame
+
+        def send(frame):
+            if frame.ip is not None and getattr(frame, "arp", None) is None and frame.ethernet.dst_mac_addr.lower() != "ff:ff:ff:ff:ff:ff":
+                sent.append((str(frame.ip.dst_ip_address), frame.ethernet.dst_mac_addr))
+            return orig_send(frame)
+
+        object.__setattr__(a.network_interface[1], "send_frame", send)
+        # history: who talks first, and how many warm-up exchanges (these fill pc_a's ARP cache, also with entries
+        # learnt from routed frames)
+        try:
+            for _ in range(nw):
+                if first_from_b:
+                    b.ping("192.168.1.2", pings=1)
+                    a.ping("192.168.2.2", pings=1)
+                else:
+                    a.ping("192.168.2.2", pings=1)
+                    b.ping("192.168.1.2", pings=1)
+            if blk == "acl_deny":
+                r1.acl.add_rule(action=ACLAction.DENY, position=0, dst_ip_address="192.168.2.0", dst_wildcard_mask="0.0.0.255")
+            elif blk == "gw_port_down":
+                r1.network_interface[1].disable()
+            ok = False
+            for _ in range(4):
+                if proto == 0:
+                    ok = a.ping("192.168.2.2", pings=1) or ok
+                else:
+                    got = []
+                    orig_recv = b.software_manager.receive_payload_from_session_manager
+                    object.__setattr__(b.software_manager, "receive_payload_from_session_manager", lambda *aa, **kw: (got.append(1), orig_recv(*aa, **kw))[1])
+                    a.software_manager.send_payload_to_session_manager(payload="hello", dest_ip_address=__import__("ipaddress").IPv4Address("192.168.2.2"), dest_port=open_port, src_port=open_port)
+                    object.__setattr__(b.software_manager, "receive_payload_from_session_manager", orig_recv)
+                    ok = bool(got) or ok
+        except Exception as e:
+            fail(f"exchange raised {type(e).__name__}: {e}")
+    for dst, mac in sent:
+        if not dst.startswith("192.168.1."):
+            check(mac == gw_mac, lambda: f"pc_a addressed a frame for off-subnet {dst} to {mac}, not to its default gateway r1 ({gw_mac}) [{nw} warm-up rounds, {'b' if first_from_b else 'a'} first]")
+    up = blk == "none"
+    cover("gw_up" if up else "gw_blocked")
+    check(bool(ok) == up, lambda: f"{'ping' if proto == 0 else 'tcp payload'} pc_a->pc_b with gateway condition {blk}, {nw} warm-up rounds ({'b' if first_from_b else 'a'} first): delivered={ok}, model says {up}")
+
+
 def addressee(mac_kind: int, ip_kind: int, node_on: bool):
     """HostNode: a frame is handed to the session manager only if it is addressed to this interface (own MAC, or a
     broadcast MAC with own / subnet-broadcast IP)."""
@@ -525,6 +620,13 @@ HARNESSES = {
         "thorough": [{"fixed": {}, "timeout": 600}],
         "cover": ["asym_up", "asym_down"],
         "bounds": "3 routers in a triangle with asymmetric static routes, both directions, 0-2 warm-up rounds (ARP/transit caches cold or warm), each transit link down or none",
+    },
+    "gateway_lan": {
+        "fn": gateway_lan,
+        "quick": [{"fixed": {}, "timeout": 280}],
+        "thorough": [{"fixed": {"proto": pr}, "timeout": 600} for pr in (0, 1)],
+        "cover": ["gw_up", "gw_blocked"],
+        "bounds": "one LAN with two routers (the default gateway routes the remote subnet via the other router, replies come back from the other router directly); 0-2 warm-up rounds, either side talking first; gateway permitting / denying by ACL / its LAN port down; ICMP and a TCP payload",
     },
     "addressee": {
         "fn": addressee,
